@@ -66,9 +66,15 @@ def tcp_packets(wire, rng, client, server, schedule="random", isn_c=None, isn_s=
         pkts.append({"ts": tick(), "frame": frame(False, 0x02, b"", s=isn_c), "isserver": False, "off": None, "len": 0})
         pkts.append({"ts": tick(), "frame": frame(True, 0x12, b"", s=isn_s, a=(isn_c + 1) & 0xFFFFFFFF), "isserver": True, "off": None, "len": 0})
         pkts.append({"ts": tick(), "frame": frame(False, 0x10, b"", a=(isn_s + 1) & 0xFFFFFFFF), "isserver": False, "off": None, "len": 0})
-    for isserver, data in flights(wire):
+    # "records": every record travels in a segment of its own (one in four cut in two): segment boundaries on record boundaries
+    units = [(a, bytes(b)) for a, b in wire] if schedule == "records" else flights(wire)
+    for isserver, data in units:
         o = 0
-        for k in cuts(rng, len(data), schedule):
+        if schedule == "records":
+            ks = [len(data)] if len(data) < 2 or rng.randrange(4) else (lambda c: [c, len(data) - c])(rng.randrange(1, len(data)))
+        else:
+            ks = cuts(rng, len(data), schedule)
+        for k in ks:
             chunk = data[o:o + k]
             pkts.append({"ts": tick(), "frame": frame(isserver, 0x18, chunk, a=seq[not isserver]), "isserver": isserver, "off": sent[isserver], "len": k})
             seq[isserver] = (seq[isserver] + k) & 0xFFFFFFFF
